@@ -46,6 +46,10 @@ def relem(r, tid, big=False):
         return r.choice(SPECIAL4)
     if k < 0.5:
         return bytes([r.randrange(3)]) + b"\0" * (sz - 1)
+    if k < 0.6 and sz >= 4:
+        # zero in the low half, something in the high half (and the other way round)
+        half = sz // 2
+        return (b"\0" * half + rbytes(r, sz - half)) if r.random() < 0.5 else (rbytes(r, half) + b"\0" * (sz - half))
     return rbytes(r, sz)
 
 
@@ -130,7 +134,8 @@ def rtable(r, consistent=True, maxcols=4, maxslices=3, big=False, small=False):
         for tid in coltypes:
             o = robj(r, tid, rows if not is_arr(tid) else min(rows, 40), big)
             rows_c = len(o.elems)
-            enc = r.choice([0, 1, 2, 2, 3] if tid == 1 else [0, 1, 2, 2])
+            # bit arrays of non-boolean fixed-size columns are legal ("is non-zero" per row)
+            enc = r.choice([0, 1, 2, 2, 3] if tid == 1 else ([0, 1, 2, 2] + ([3, 3] if not is_arr(tid) and r.random() < 0.15 else [])))
             props = []
             used = set()
             for _ in range(r.randrange(0, 3)):
